@@ -263,7 +263,9 @@ def near_misses(name, registered):
     return sorted(x for x in out if x not in registered)
 
 
-CHANNELS = ['xml', 'soap11', 'soap12', 'json', 'yaml', 'msgpack', 'msgpackrpc', 'http', 'json-wsgi']
+# ('http-mounted': the application is mounted under a prefix, SCRIPT_NAME=/api/v1; 'http-script-name': the method name is the
+# last segment of the MOUNT POINT and PATH_INFO is empty - the request names no method)
+CHANNELS = ['xml', 'soap11', 'soap12', 'json', 'yaml', 'msgpack', 'msgpackrpc', 'http', 'json-wsgi', 'http-mounted', 'http-script-name']
 
 
 def xml_name_ok(n):
@@ -278,7 +280,7 @@ def xml_name_ok(n):
 
 def build_request(channel, name, variant):
     """-> bytes / (path) ; variant in qualified | other-ns | unqualified"""
-    if channel != 'http' and any(0xDC80 <= ord(c) <= 0xDCFF for c in name):
+    if not channel.startswith('http') and any(0xDC80 <= ord(c) <= 0xDCFF for c in name):
         return None
     if channel in ('xml', 'soap11', 'soap12'):
         if not xml_name_ok(name):
@@ -304,7 +306,7 @@ def build_request(channel, name, variant):
     if channel == 'msgpackrpc':
         import msgpack
         return msgpack.packb([0, 1, name, []], use_bin_type=True)
-    if channel == 'http':
+    if channel.startswith('http'):
         # PEP 3333: PATH_INFO is the unquoted path, its bytes decoded as latin-1
         return '/' + name.encode('utf8', 'surrogateescape').decode('latin-1')
     raise ValueError(channel)
@@ -330,10 +332,10 @@ class App(object):
     def __init__(self, services, channel):
         from spyne.server.wsgi import WsgiApplication
         self.b = spec.build(program_of(services))
-        proto = {'json-wsgi': 'json'}.get(channel, channel)
+        proto = {'json-wsgi': 'json', 'http-mounted': 'http', 'http-script-name': 'http'}.get(channel, channel)
         self.app = spec.make_app(self.b, harness.make_proto(proto), harness.make_proto(proto))
         self.channel = channel
-        if channel in ('http', 'json-wsgi'):
+        if channel.startswith('http') or channel == 'json-wsgi':
             self.wsgi = WsgiApplication(self.app)
         else:
             self.srv = drv.make_server(self.app)
@@ -343,8 +345,14 @@ class App(object):
         b.rec.reset()
         for k, m in b.methods.items():
             b.rec.script[k] = ('ret', 1)
-        if self.channel == 'http':
-            o = drv.call_wsgi(self.wsgi, drv.environ('GET', req, '', b'', content_type=None, content_length=None))
+        if self.channel.startswith('http'):
+            env = drv.environ('GET', req, '', b'', content_type=None, content_length=None)
+            if self.channel == 'http-mounted':
+                env['SCRIPT_NAME'] = '/api/v1'
+            elif self.channel == 'http-script-name':
+                env['SCRIPT_NAME'] = '/svc' + env['PATH_INFO']
+                env['PATH_INFO'] = ''
+            o = drv.call_wsgi(self.wsgi, env)
         elif self.channel == 'json-wsgi':
             o = drv.call_wsgi(self.wsgi, drv.environ('POST', '/', '', req, content_type='application/json'))
         else:
@@ -422,8 +430,10 @@ def run_shard(shard, only=None):
                 req = build_request(channel, name, variant)
                 if req is None:
                     continue
-                if channel == 'http' and name == '':
+                if channel.startswith('http') and name == '':
                     continue
+                if channel == 'http-script-name':
+                    want, lenient = None, None
                 key = [list(perm), variant, name]
                 if only is not None and only != key:
                     continue
@@ -458,7 +468,7 @@ def run_shard(shard, only=None):
                         V('near-miss-ran', '%s' % kind_, 'unregistered name ran %s' % calls)
                         res['outcomes']['near-miss-ran'] = res['outcomes'].get('near-miss-ran', 0) + 1
                         continue
-                    if channel in ('http', 'json-wsgi'):
+                    if channel.startswith('http') or channel == 'json-wsgi':
                         st = (o.status or '')[:3]
                         if st != '404':
                             V('not-found-status', st, 'HTTP status %s for an unknown method (body %r)' % (o.status, (o.out or b'')[:120]))
